@@ -200,13 +200,17 @@ add('C19', 'netsim', 'exploration',
 
 add('C11', 'threadsim', 'exploration',
     'deterministic simulation of real threads under a seeded scheduler: '
-    'bounded pre-emption sweep + random-walk / PCT schedules, wire decoded '
-    'by an independent peer',
+    'bounded pre-emption sweep + race-directed site sweep + random-walk / '
+    'PCT schedules, wire decoded by an independent peer',
     'Real threads are released one at a time; yield points at every traced '
     'source line of lomond/*.py, at lock acquire/release, in the middle of '
     'the split socket write and in poll.  Every schedule with one '
     'pre-emption is enumerated for each base scenario (complete at bound 1), '
-    'pairs are sampled, seeded schedulers go beyond.  Pre-emption is at '
+    'pairs are sampled, seeded schedulers go beyond.  A race-directed sweep '
+    'runs sets of up to three pre-emption sites chosen among the points '
+    'where two threads touch the same field of the connection state, the '
+    'session or the compression object (found by recording runs).  '
+    'Pre-emption is at '
     'source-line granularity: a race inside one C call is not modelled.',
     TRUST + '  SimLock replaces threading.Lock at lomond.session.threading / '
     'lomond.websocket.threading.', 'DESIGN.md section 6 C11, section 3.3')
@@ -214,11 +218,16 @@ add('C11', 'threadsim', 'exploration',
 add('C12', 'threadsim', 'exploration',
     'deterministic simulation of real threads under a seeded scheduler: '
     'bounded pre-emption sweep of close() against sends / closes / the event '
-    'loop, random-walk / PCT schedules beyond',
+    'loop, race-directed site sweep (<= 3 sites), random-walk / PCT '
+    'schedules beyond',
     'As C11, with base scenarios that race close() against send_text / '
     'send_binary / send_ping / close() and against the event-loop thread '
     'echoing a server Close, answering a Ping or sending an automatic Ping; '
-    'oracle: <= 1 Close, no data frame after it, loser gets WebSocketError.',
+    'oracle: <= 1 Close, no data frame after it, loser gets WebSocketError.  '
+    'Race-directed sweep as in C11, complete over triples of sites for two '
+    'bases at the quick tier; single-threaded families with a second writer '
+    'of the flags (held generator, failed Close write, violation after '
+    'close()).',
     TRUST + '  SimLock replaces threading.Lock at lomond.session.threading / '
     'lomond.websocket.threading.', 'DESIGN.md section 6 C12, section 3.3')
 
